@@ -32,6 +32,27 @@ pub enum Event {
     },
     /// Argument of a `TranspositionTable::retrieve` call.
     TtRetrieve { key: u64 },
+    /// What the table returned for `key` immediately before and immediately after one
+    /// `store` call made by the searcher (both read through the public `retrieve`).
+    TtStoreEffect {
+        key: u64,
+        before: Option<EntryView>,
+        after: Option<EntryView>,
+    },
+}
+
+/// (hash_key, eval, move as in `TtStore`, depth, bound index) of a table entry.
+pub type EntryView = (u64, i32, Option<[u8; 4]>, u8, u8);
+
+pub fn entry_view(e: &crate::transposition::Entry) -> EntryView {
+    (
+        e.hash_key,
+        e.eval,
+        e.best_move
+            .map(|m| [m.from, m.to, m.piece_type.index() as u8, m.move_type as u8]),
+        e.depth,
+        e.bounds as u8,
+    )
 }
 
 pub const SITE_TT_PROBE_MISS: u8 = 0;
